@@ -36,16 +36,34 @@ func H_C01_multi() {
 		kind = vf.Choice("call", 6)
 	}
 	switch kind {
-	case 0: // InsertMany, ordered or not, with possibly duplicate ids
+	case 0: // InsertMany, ordered or not, with possibly duplicate ids / keys of a unique secondary index
+		uniq := vf.Param("uniqa", 0) == 1 && vf.Bool("uniqA")
+		if uniq {
+			_, err := coll.Indexes().CreateOne(bg, mongo.IndexModel{Keys: bson.D{{Key: "a", Value: int32(1)}}, Options: options.Index().SetUnique(true)})
+			vf.Assume(err == nil) // existing documents without duplicates on a
+		}
+		accepts := func(d bson.D) bool {
+			if m.hasID(d[0].Value) {
+				return false
+			}
+			if uniq {
+				for i := range m.docs {
+					if keysCollide(refKeys(&m.docs[i], "a"), refKeys(&d, "a")) {
+						return false
+					}
+				}
+			}
+			return true
+		}
 		d1 := bson.D{{Key: "_id", Value: vf.Int32("m1.id")}, {Key: "a", Value: c01Val("m1.a")}}
 		d2 := bson.D{{Key: "_id", Value: vf.Int32("m2.id")}, {Key: "a", Value: c01Val("m2.a")}}
 		ordered := vf.Bool("ordered")
 		res, err := coll.InsertMany(bg, []interface{}{d1, d2}, options.InsertMany().SetOrdered(ordered))
-		ok1 := !m.hasID(d1[0].Value)
+		ok1 := accepts(d1)
 		if ok1 {
 			m.docs = append(m.docs, d1)
 		}
-		ok2 := !m.hasID(d2[0].Value) && (ok1 || !ordered)
+		ok2 := accepts(d2) && (ok1 || !ordered)
 		if ok2 {
 			m.docs = append(m.docs, d2)
 		}
@@ -62,6 +80,23 @@ func H_C01_multi() {
 			want++
 		}
 		vf.Assert(res != nil && len(res.InsertedIDs) == want, "InsertMany reports a different number of inserted ids than the model")
+		if ok1 != ok2 {
+			// a rejected item must leave no trace: its _id (and its key) can be used by a later insert
+			rej := d2
+			if !ok1 {
+				rej = d1
+			}
+			d3 := bson.D{{Key: "_id", Value: rej[0].Value}, {Key: "a", Value: vf.Int32("m3.a")}}
+			if vf.Bool("reuseKey") {
+				d3 = bson.D{{Key: "_id", Value: vf.Int32("m3.id")}, {Key: "a", Value: rej[1].Value}}
+			}
+			ok3 := accepts(d3)
+			_, err := coll.InsertOne(bg, d3)
+			vf.Assert((err == nil) == ok3, "an insert after a partially failed InsertMany is accepted or rejected differently from the model")
+			if ok3 {
+				m.docs = append(m.docs, d3)
+			}
+		}
 	case 1: // FindOneAndDelete
 		q := c01Filter("q")
 		hit := m.match(q)
